@@ -3,7 +3,7 @@
 use crate::util::Witness;
 use sea_query::*;
 
-const PIECES: &[&str] = &["a", " ", "?", "??", "$1", "$2", "$$", "$x", "$tag$", "'q?$1'", "\"i?\"", "=", "1", "?,?", "(", ")", "m[i[1]]", "?OR", "@>", "#>>"];
+const PIECES: &[&str] = &["a", " ", "?", "??", "$1", "$2", "$$", "$x", "$tag$", "'q?$1'", "\"i?\"", "=", "1", "?,?", "(", ")", "m[i[1]]", "?OR", "@>", "#>>", "é", "ß_"];
 
 /// what the template must render to, by the property's rules, scanning characters (quotes: ' " ` with doubling)
 fn oracle(t: &str, vals: &[String], numbered: bool) -> Option<String> {
